@@ -18,6 +18,23 @@ import copy
 PURE_CALLS = {"str", "int", "float", "len", "bool"}
 
 
+def _dc(node):
+    """structural copy of an AST (fields and positions only: the `_parent` back-links that the index adds would drag the whole
+    module into a copy.deepcopy)"""
+    if isinstance(node, list):
+        return [_dc(x) for x in node]
+    if not isinstance(node, ast.AST):
+        return node
+    new = type(node)()
+    for f in node._fields:
+        if hasattr(node, f):
+            setattr(new, f, _dc(getattr(node, f)))
+    for a in ("lineno", "col_offset", "end_lineno", "end_col_offset"):
+        if hasattr(node, a):
+            setattr(new, a, getattr(node, a))
+    return new
+
+
 def is_pure(e) -> bool:
     if isinstance(e, (ast.Name, ast.Constant)):
         return True
@@ -82,7 +99,7 @@ class _Subst(ast.NodeTransformer):
     def visit_Name(self, node):
         if node.id == self.name and isinstance(node.ctx, ast.Load):
             self.n += 1
-            return copy.deepcopy(self.value)
+            return _dc(self.value)
         return node
 
     # do not descend into nested scopes that rebind the name as a parameter
@@ -202,7 +219,7 @@ def _inline_in_block(block, counts, keep):
                     ok = False
                 if ok:
                     sub = _Subst(name, st.value)
-                    trial = [sub.visit(copy.deepcopy(b)) for b in block[i + 1:]]
+                    trial = [sub.visit(_dc(b)) for b in block[i + 1:]]
                     uses = sub.n
                     # every read of the alias must lie in the remainder of this block (not after an enclosing loop / branch)
                     if uses > 0 and uses == counts.get("@loads:" + name, -1):
@@ -326,6 +343,16 @@ def _rename_apart(f, keep):
                         covered += [n for n in ast.walk(r) if isinstance(n, ast.Name) and n.id == name and isinstance(n.ctx, ast.Load)]
                     groups.append((st.targets[0], covered))
                     seen_store_nodes.add(id(st.targets[0]))
+                elif isinstance(st, ast.For) and any(isinstance(n, ast.Name) and n.id == name for n in ast.walk(st.target)):
+                    # a loop variable: its reads are those of the loop body (provided the body does not rebind it)
+                    tn = [n for n in ast.walk(st.target) if isinstance(n, ast.Name) and n.id == name]
+                    if len(tn) != 1 or any(name in _bound_names(b) for b in st.body + st.orelse):
+                        okay = False
+                        continue
+                    covered = [n for b in st.body + st.orelse for n in ast.walk(b)
+                               if isinstance(n, ast.Name) and n.id == name and isinstance(n.ctx, ast.Load)]
+                    groups.append((tn[0], covered))
+                    seen_store_nodes.add(id(tn[0]))
         if not okay or len(groups) != len(sts) or any(id(n) not in seen_store_nodes for n in sts) or any(not g[1] for g in groups):
             continue
         cov = [id(n) for g in groups for n in g[1]]
@@ -377,6 +404,28 @@ def _append_leaves(stmts, conds, acc):
     raise _NoComp()
 
 
+def _store_leaves(stmts, conds, acc):
+    """paths of a filter-store loop body -> [(conditions, key expr, value expr, statement)] for `acc[key] = value`"""
+    if not stmts:
+        return []
+    st, rest = stmts[0], stmts[1:]
+    if isinstance(st, ast.Continue):
+        return []
+    if isinstance(st, ast.Pass):
+        return _store_leaves(rest, conds, acc)
+    if isinstance(st, ast.Assign) and len(st.targets) == 1 and isinstance(st.targets[0], ast.Subscript) \
+            and isinstance(st.targets[0].value, ast.Name) and st.targets[0].value.id == acc:
+        if rest and not all(isinstance(r, (ast.Continue, ast.Pass)) for r in rest):
+            raise _NoComp()
+        return [(conds, st.targets[0].slice, st.value, st)]
+    if isinstance(st, ast.If):
+        b = list(st.body) + ([] if _ends_with_continue(st.body) else rest)
+        o = list(st.orelse) + ([] if st.orelse and _ends_with_continue(st.orelse) else rest)
+        neg = ast.UnaryOp(op=ast.Not(), operand=st.test)
+        return _store_leaves(b, conds + [st.test], acc) + _store_leaves(o, conds + [neg], acc)
+    raise _NoComp()
+
+
 def _loops_to_comprehensions(block):
     """`acc = []` directly followed by a loop whose body only filters (if / continue) and appends one expression to acc becomes
     `acc = [expr for target in iter if cond]`: the loop and the comprehension are one construct for the rules."""
@@ -387,6 +436,23 @@ def _loops_to_comprehensions(block):
             if isinstance(sub, list) and sub and isinstance(sub[0], ast.stmt):
                 if _loops_to_comprehensions(sub):
                     changed = True
+    # `acc = []` / `acc = {}` may be separated from its loop by statements that do not mention acc: move it down next to the loop
+    i = 0
+    while i < len(block):
+        a = block[i]
+        if isinstance(a, ast.Assign) and len(a.targets) == 1 and isinstance(a.targets[0], ast.Name) \
+                and ((isinstance(a.value, ast.List) and not a.value.elts) or (isinstance(a.value, ast.Dict) and not a.value.keys)):
+            acc = a.targets[0].id
+            j = i + 1
+            while j < len(block) and not any(isinstance(n, ast.Name) and n.id == acc for n in ast.walk(block[j])) \
+                    and not isinstance(block[j], (ast.Return, ast.Raise, ast.Break, ast.Continue)):
+                j += 1
+            if j > i + 1 and j < len(block) and isinstance(block[j], ast.For) and not getattr(a, "_moved", False):
+                a._moved = True  # once only (two accumulators of one loop would otherwise swap for ever)
+                block.insert(j - 1, block.pop(i))
+                changed = True
+                continue
+        i += 1
     i = 0
     while i + 1 < len(block):
         a, l = block[i], block[i + 1]
@@ -401,13 +467,39 @@ def _loops_to_comprehensions(block):
             if leaves and len(uses_acc) == len({id(x) for c, e, x in leaves}) and len({ast.dump(e) for c, e, x in leaves}) == 1 \
                     and not any(isinstance(n, (ast.Break, ast.Return, ast.Yield, ast.Assign, ast.AugAssign)) for n in ast.walk(l)):
                 def conj(cs):
-                    cs = [copy.deepcopy(c) for c in cs]
+                    cs = [_dc(c) for c in cs]
                     return cs[0] if len(cs) == 1 else ast.BoolOp(op=ast.And(), values=cs)
                 alts = [conj(c) for c, e, x in leaves if c]
                 ifs = []
                 if alts and len(alts) == len(leaves):
                     ifs = [alts[0] if len(alts) == 1 else ast.BoolOp(op=ast.Or(), values=alts)]
-                comp = ast.ListComp(elt=copy.deepcopy(leaves[0][1]),
+                comp = ast.ListComp(elt=_dc(leaves[0][1]),
+                                    generators=[ast.comprehension(target=l.target, iter=l.iter, ifs=ifs, is_async=0)])
+                new = ast.copy_location(ast.Assign(targets=a.targets, value=comp, lineno=a.lineno), a)
+                block[i:i + 2] = [ast.fix_missing_locations(new)]
+                changed = True
+                continue
+        # the same for a dict: `acc = {}` + loop storing acc[key] = value once per iteration, key = the loop variable
+        if isinstance(a, ast.Assign) and len(a.targets) == 1 and isinstance(a.targets[0], ast.Name) and isinstance(a.value, ast.Dict) \
+                and not a.value.keys and isinstance(l, ast.For) and not l.orelse:
+            acc = a.targets[0].id
+            uses_acc = [n for n in ast.walk(l) if isinstance(n, ast.Name) and n.id == acc]
+            try:
+                leaves = _store_leaves(list(l.body), [], acc)
+            except _NoComp:
+                leaves = None
+            # (a repeated key overwrites the earlier value and keeps its position, in the loop and in the comprehension alike)
+            if leaves and len(uses_acc) == len({id(x) for c, k, v, x in leaves}) and len({ast.dump(k) + ast.dump(v) for c, k, v, x in leaves}) == 1 \
+                    and not any(isinstance(n, (ast.Break, ast.Return, ast.Yield, ast.AugAssign)) for n in ast.walk(l)) \
+                    and sum(isinstance(n, ast.Assign) for n in ast.walk(l)) == len({id(x) for c, k, v, x in leaves}):
+                def conj(cs):
+                    cs = [_dc(c) for c in cs]
+                    return cs[0] if len(cs) == 1 else ast.BoolOp(op=ast.And(), values=cs)
+                alts = [conj(c) for c, k, v, x in leaves if c]
+                ifs = []
+                if alts and len(alts) == len(leaves):
+                    ifs = [alts[0] if len(alts) == 1 else ast.BoolOp(op=ast.Or(), values=alts)]
+                comp = ast.DictComp(key=_dc(leaves[0][1]), value=_dc(leaves[0][2]),
                                     generators=[ast.comprehension(target=l.target, iter=l.iter, ifs=ifs, is_async=0)])
                 new = ast.copy_location(ast.Assign(targets=a.targets, value=comp, lineno=a.lineno), a)
                 block[i:i + 2] = [ast.fix_missing_locations(new)]
@@ -417,8 +509,83 @@ def _loops_to_comprehensions(block):
     return changed
 
 
+def _eliminate_found_flags(f):
+    """`found = False` ... `if cond: found = True; hits.append(x)` ... `if found:`  -- a flag that is set exactly where something
+    is appended to lists that start empty is the statement "one of those lists is non-empty".  The flag's reads become
+    `hits1 or hits2`, its assignments disappear, and the loops are left as pure filter-append loops (which then become
+    comprehensions).  Conditions (all checked): the flag is initialised to False once, at function level; every other binding is
+    `flag = True` with a sibling `L.append(..)` in the same block, L initialised to [] at function level and never otherwise
+    mutated or rebound; and every append to such an L has a sibling `flag = True`."""
+    changed = False
+    inits = {}
+    for st in f.body:
+        if isinstance(st, ast.Assign) and len(st.targets) == 1 and isinstance(st.targets[0], ast.Name):
+            inits.setdefault(st.targets[0].id, []).append(st)
+    for flag, ini in list(inits.items()):
+        if len(ini) != 1 or not (isinstance(ini[0].value, ast.Constant) and ini[0].value.value is False):
+            continue
+        sets, lists, okay = [], set(), True
+        for block in _blocks(f):
+            for st in block:
+                if st is ini[0]:
+                    continue
+                if isinstance(st, ast.Assign) and any(isinstance(t, ast.Name) and t.id == flag for t in st.targets):
+                    if not (len(st.targets) == 1 and isinstance(st.value, ast.Constant) and st.value.value is True):
+                        okay = False
+                        continue
+                    sib = [x.value.func.value.id for x in block if isinstance(x, ast.Expr) and isinstance(x.value, ast.Call)
+                           and isinstance(x.value.func, ast.Attribute) and x.value.func.attr == "append" and isinstance(x.value.func.value, ast.Name)]
+                    if len(sib) != 1:
+                        okay = False
+                        continue
+                    sets.append((block, st))
+                    lists.add(sib[0])
+        other_stores = [n for n in ast.walk(f) if isinstance(n, ast.Name) and n.id == flag and isinstance(n.ctx, (ast.Store, ast.Del))]
+        if not okay or not sets or len(other_stores) != len(sets) + 1:
+            continue
+        # the lists: initialised [] once at function level, only ever appended to, each append next to a flag set
+        for L in lists:
+            li = inits.get(L, [])
+            if len(li) != 1 or not (isinstance(li[0].value, ast.List) and not li[0].value.elts):
+                okay = False
+            if sum(1 for n in ast.walk(f) if isinstance(n, ast.Name) and n.id == L and isinstance(n.ctx, (ast.Store, ast.Del))) != 1:
+                okay = False
+            for block in _blocks(f):
+                for x in block:
+                    for c in ast.walk(x) if not isinstance(x, (ast.For, ast.While, ast.If, ast.With, ast.Try)) else []:
+                        if isinstance(c, ast.Call) and isinstance(c.func, ast.Attribute) and isinstance(c.func.value, ast.Name) and c.func.value.id == L \
+                                and c.func.attr in MUTATORS:
+                            if c.func.attr != "append" or not any(b is block for b, s_ in sets):
+                                okay = False
+        # the flag must not be read before the last place it can be set, other than after the loops: require all reads at
+        # function level statements that come after every setting statement's top-level ancestor
+        if not okay:
+            continue
+        top_of = {}
+        for k, st in enumerate(f.body):
+            for n in ast.walk(st):
+                top_of[id(n)] = k
+        last_set = max(top_of[id(st)] for b, st in sets)
+        reads = [n for n in ast.walk(f) if isinstance(n, ast.Name) and n.id == flag and isinstance(n.ctx, ast.Load)]
+        if not reads or any(top_of.get(id(n), -1) <= last_set for n in reads):
+            continue
+        order = [L for L in inits if L in lists]
+        repl = ast.BoolOp(op=ast.Or(), values=[ast.Name(id=L, ctx=ast.Load()) for L in order]) if len(order) > 1 else ast.Name(id=order[0], ctx=ast.Load())
+        sub = _Subst(flag, repl)
+        for k in range(len(f.body)):
+            if k > last_set:
+                f.body[k] = sub.visit(f.body[k])
+        for b, st in sets:
+            b.remove(st)
+        f.body.remove(ini[0])
+        ast.fix_missing_locations(f)
+        changed = True
+    return changed
+
+
 def inline_aliases(fn: ast.FunctionDef, keep=()) -> ast.FunctionDef:
-    f = copy.deepcopy(fn)
+    f = _dc(fn)
+    _eliminate_found_flags(f)
     _rename_apart(f, set(keep))
     counts = _assign_count(f)
     # a name that is read outside the block where it is bound must stay (checked coarsely: loads before its binding line)
@@ -459,7 +626,7 @@ class _Rename(ast.NodeTransformer):
 
     def visit_Name(self, node):
         if node.id in self.subst and isinstance(node.ctx, ast.Load):
-            return copy.deepcopy(self.subst[node.id])
+            return _dc(self.subst[node.id])
         if node.id in self.mapping:
             return ast.copy_location(ast.Name(id=self.mapping[node.id], ctx=node.ctx), node)
         return node
@@ -596,7 +763,7 @@ def _expand_call(st, call, h, receiver, caller_locals):
     binding = _bind(h, call, receiver)
     if binding is None:
         return None
-    body = copy.deepcopy(_helper_body(h))
+    body = _dc(_helper_body(h))
     if not body or any(isinstance(n, (ast.Yield, ast.YieldFrom, ast.Global, ast.Nonlocal, ast.FunctionDef, ast.While, ast.Try, ast.With))
                        for b in body for n in ast.walk(b)):
         return None
@@ -617,12 +784,12 @@ def _expand_call(st, call, h, receiver, caller_locals):
     for p, x in binding.items():
         if p in stores:
             mapping[p] = p + tag
-            pre.append(ast.copy_location(ast.Assign(targets=[ast.Name(id=p + tag, ctx=ast.Store())], value=copy.deepcopy(x), lineno=st.lineno), st))
+            pre.append(ast.copy_location(ast.Assign(targets=[ast.Name(id=p + tag, ctx=ast.Store())], value=_dc(x), lineno=st.lineno), st))
         elif is_pure(x) or loads.get(p, 0) <= 1:
             subst[p] = x
         else:
             mapping[p] = p + tag
-            pre.append(ast.copy_location(ast.Assign(targets=[ast.Name(id=p + tag, ctx=ast.Store())], value=copy.deepcopy(x), lineno=st.lineno), st))
+            pre.append(ast.copy_location(ast.Assign(targets=[ast.Name(id=p + tag, ctx=ast.Store())], value=_dc(x), lineno=st.lineno), st))
     rn = _Rename(mapping, subst)
     body = [rn.visit(b) for b in body]
     n_ret = sum(isinstance(n, ast.Return) for b in body for n in ast.walk(b))
@@ -638,7 +805,7 @@ def _expand_call(st, call, h, receiver, caller_locals):
     # shape B
     try:
         if isinstance(st, ast.Assign) and st.value is call:
-            make = lambda v: [ast.copy_location(ast.Assign(targets=copy.deepcopy(st.targets), value=v, lineno=st.lineno), st)]
+            make = lambda v: [ast.copy_location(ast.Assign(targets=_dc(st.targets), value=v, lineno=st.lineno), st)]
         elif isinstance(st, ast.Return) and st.value is call:
             make = lambda v: [ast.copy_location(ast.Return(value=v), st)]
         elif isinstance(st, ast.Expr) and st.value is call:
@@ -719,7 +886,7 @@ def inline_helpers(fn: ast.FunctionDef, resolve=None):
                 break
     if not has_candidate:
         return fn, []
-    f = copy.deepcopy(fn)
+    f = _dc(fn)
     local_defs = {s.name: s for s in f.body if isinstance(s, ast.FunctionDef)}
     caller_locals = {
         "@stores": {n.id for n in ast.walk(f) if isinstance(n, ast.Name) and isinstance(n.ctx, ast.Store)} | {a.arg for a in f.args.args},
@@ -797,7 +964,7 @@ def structure_continues(stmts):
         return out
 
     try:
-        res = conv(copy.deepcopy(list(stmts)))
+        res = conv(_dc(list(stmts)))
     except _NoComp:
         return None
     for s in res:
@@ -850,12 +1017,12 @@ def expand_locals(expr, fn, stop=()):
         def visit_Name(self, node):
             if isinstance(node.ctx, ast.Load) and node.id in ok and node.id not in self.active:
                 self.active.append(node.id)
-                r = self.visit(copy.deepcopy(ok[node.id]))
+                r = self.visit(_dc(ok[node.id]))
                 self.active.pop()
                 return r
             return node
 
-    out = X().visit(copy.deepcopy(expr))
+    out = X().visit(_dc(expr))
     return ast.fix_missing_locations(out)
 
 
